@@ -80,7 +80,7 @@ def obj_desc(draw, cls=None, depth=0):
         n = 1 if cls == 'Reference' else draw(st.integers(1, 3))
         d['refs'] = [{'model': draw(gen.statmech_desc(name='r%d' % i, allow_imag=False)), 'elements': draw(elements_st),
                       'T_ref': 298.15, 'HoRT_ref': draw(st.floats(-100, 100))} for i in range(n)]
-        d['fit'] = draw(st.booleans())
+        d['fit'] = draw(st.sampled_from([True, False, 'cleared']))
     elif cls == 'PiecewiseCovEffect':
         d['cov'] = draw(cov_model())
         d['name'] = draw(text_st)
@@ -182,6 +182,11 @@ def build(d):
                           T_ref=r['T_ref'], HoRT_ref=r['HoRT_ref']) for r in d['refs']]
         if cls == 'Reference':
             return refs[0]
+        if d['fit'] == 'cleared':
+            # fitted, then emptied by the user: an empty offset table is a state of its own
+            out = References(references=refs)
+            out.clear_offset()
+            return out
         return References(references=refs) if d['fit'] else References(references=refs, offset={'H': 1.5, 'O': -2.0})
     if cls == 'GasPressureAdj':
         from pmutt.empirical import GasPressureAdj
